@@ -1144,8 +1144,8 @@ def run_concurrent_stream(ctx):
                        repr(out['schedule'])), nontrivial=True)
         ctx.count('concurrent:clients%d' % len(cfg['edges']))
         ctx.count('concurrent:%s:%s' % (cfg['ymode'], cfg['storage']))
-        overlapped = any(out['log'][i][0] != out['log'][i + 1][0] for i in range(len(out['log']) - 1)
-                         if out['log'][i + 1][1][0] not in (8, 9))
+        owners = [o for i, (o, e) in enumerate(out['log']) if i == 0 or out['log'][i - 1][0] != o]
+        overlapped = len(owners) > len(set(owners))        # some client's events are not contiguous
         ctx.count('concurrent:interleaved' if overlapped else 'concurrent:sequential')
         judge_concurrent(ctx, case, out)
         model_log = [(e[0], canon_trace([e[1]])[0]) for e in mo]
